@@ -348,5 +348,5 @@ def main(rep, tier):
     return rep.finish(
         "Obligations of the no-lost-wakeup argument (register before the temporary Arc dies, Drop wakes unconditionally, same waker field), "
         "shutdown ordering (notify all, then wait; runner consumed), and the cancellation structure of run() (only the preamble phase is "
-        "cancellable, stop polled first, handler and close outside). Hand argument in DESIGN.md §4 C14 connects them to the statement.",
+        "cancellable, stop polled first, handler and close outside), every runner owning a fresh wait group and stop event. Hand argument in DESIGN.md §4 C14 connects them to the statement.",
         not_decided="scheduler-level liveness; linearizability of AtomicWaker / event-listener (trusted dependencies)")
